@@ -187,6 +187,32 @@ def check_dequeue_result(mod, rep, rid):
                                   ('ignores' if not tested else 'does not derive its returned index from'), site='nsync_wait_n/dequeue-result'))
     return n
 
+def _is_positive_time_predicate(mod, name):
+    """does the static function name(seconds, nanoseconds) return non-zero only when the time is later than (0, 0)?  Every path of the function is
+    evaluated in closed form (affine engine); a non-zero result needs seconds > 0, or seconds == 0 and nanoseconds > 0, on its path"""
+    from ..affine import Evaluator, Aff, Inexact
+    f = mod.func(name)
+    if f is None or f.decl or not f.internal or [a['ty'] for a in f.args] != ['i64', 'i64']:
+        return False
+    sec, ns = Aff({'t.sec': 1}), Aff({'t.nsec': 1})
+    I64 = (-(1 << 63), (1 << 63) - 1)
+    try:
+        paths = Evaluator(mod).run(f, [sec, ns], {'t.sec': I64, 't.nsec': (0, 999999999)})
+    except (Inexact, AnalysisBroken):
+        return False
+    if not paths:
+        return False
+    for p, rv in paths:
+        if not (isinstance(rv, Aff) and rv.is_const()):
+            return False
+        if rv.k == 0:
+            continue
+        slo, _ = p.interval(sec)
+        nlo, _ = p.interval(ns)
+        if not (slo > 0 or (slo == 0 and nlo > 0)):
+            return False
+    return True
+
 def check_waitn_sleep(mod, rep, rid):
     """R3: the sleep of nsync_wait_n happens only while the earliest ready time is in the future, in a loop that re-polls after each wake-up,
     and only on ready times polled after the registrations"""
@@ -206,6 +232,10 @@ def check_waitn_sleep(mod, rep, rid):
         for p, a, b in g:
             ci = fn.imap.get(a) if isinstance(a, str) else None
             if ci is not None and ci.op == 'call' and ci.callee == 'nsync_time_cmp' and p == 'sgt' and IR.is_int(b) and IR.ival(b) == 0 and list(ci.ops[:2]) == list(sl.ops[1:3]):
+                guarded = True
+            # ... or a static predicate on the same time that is non-zero only for times after zero (decided by the exact-arithmetic engine)
+            if ci is not None and ci.op == 'call' and ci.callee and p == 'ne' and IR.is_int(b) and IR.ival(b) == 0 and list(ci.ops[:2]) == list(sl.ops[1:3]) \
+                    and _is_positive_time_predicate(mod, ci.callee):
                 guarded = True
         inloop = [h for h, body in loops.items() if sl.block.id in body and any(r.block.id in body for r in rdy if r is not rdy[0] or len(rdy) == 1)]
         ok = guarded and bool(inloop) and sl.callee == 'nsync_mu_semaphore_p_with_deadline'
@@ -261,8 +291,10 @@ def run(ctx, rep):
     files = ('internal/wait.c',)
     eng = WaitNEngine(mod, files, (), (), (), {})
     MUp, WT = Ptr('arg:mu', ()), Ptr('arg:waitable', ())
+    all_exits = []
     for mu in (MUp, 0):
         exits = eng.run('nsync_wait_n', [mu, Ptr('client:lock', ()), Ptr('client:unlock', ()), TOP, TOP, TOP, WT], nn={WT} | ({MUp} if mu else set()), label='nsync_wait_n[mu=%s]' % ('mu' if mu else 'NULL'))
+        all_exits += list(exits)
         for x in exits:
             ok = not x.ghost.get(('client_unlocked',))
             rep.instance('C11.R1', 'exit with client mutex released: %s' % bool(x.ghost.get(('client_unlocked',)))); rep.oblig('C11.R1', ok)
@@ -291,20 +323,24 @@ def run(ctx, rep):
     rep.instance('C11.R2', 'dequeue loop header %s lies on every path from the registration at %s to the return' % (hdr, enq[0].where())); rep.oblig('C11.R2', skip is None)
     if skip is not None:
         rep.violate(Violation('C11.R2', enq[0].where(), 'nsync_wait_n can return after registering on objects without running the dequeue loop: a record on the dead stack frame stays queued on the object', site='nsync_wait_n/skip-dequeue'))
-    # bookkeeping
-    mallocs = [i for i in fn.real_insts() if i.op == 'call' and i.callee in ('malloc', 'calloc')]
-    frees = [i for i in fn.real_insts() if i.op == 'call' and i.callee == 'free']
-    okb = bool(mallocs) == bool(frees)
-    for fr in frees:
-        g = [n for n in (_norm_cmp(fn, cc, s) for cc, s in _guards(fn, fr)) if n]
-        okb = okb and any(p == 'ne' and any(isinstance(x, str) and x in fn.imap and fn.imap[util.strip_ptr(fn, x)].op in ('alloca', 'getelementptr') for x in (a, b)) for p, a, b in g)
-        # on every path from the malloc to the return the free is executed
-        for m in mallocs:
-            if paths_avoiding(fn, m, lambda i: i.op == 'ret', lambda i: i is fr) is not None and not any(cfg.postdominates(b.id, fr.block.id) for b in [fr.block]):
-                pass
-    rep.instance('C11.R2', 'heap bookkeeping: %d malloc, %d free, free guarded by (array != on-stack array)' % (len(mallocs), len(frees))); rep.oblig('C11.R2', okb)
+    # bookkeeping, by interpretation: at every exit each heap block obtained by the call has been freed, and free receives nothing but such a block
+    # (never the on-stack array) - however the code remembers which of the two it is using
+    okb, whyb, nb = True, None, 0
+    for x in all_exits:
+        for k in x.ghost:
+            if isinstance(k, tuple) and k[0] == 'alloc':
+                nb += 1
+                if not x.ghost.get(('freed', k[1])):
+                    okb, whyb = False, 'nsync_wait_n can return without freeing the array of waiter records it allocated (a leak on every call with many objects)'
+    for r in eng.records:
+        if r.kind == 'free':
+            nb += 1
+            pb = r.ptr.base if isinstance(r.ptr, Ptr) else None
+            if not (pb and pb.startswith('heap:') and r.ghost.get(('alloc', pb)) and not r.ghost.get(('freed', pb))):
+                okb, whyb = False, 'free() at %s can receive %s: not a block this call obtained from malloc and still owns (the on-stack array, or a second free)' % (r.where(), pb or 'an unknown pointer')
+    rep.instance('C11.R2', 'heap bookkeeping: %d allocation/free events, freed iff allocated on every path' % nb); rep.oblig('C11.R2', okb)
     if not okb:
-        rep.violate(Violation('C11.R2', (frees or mallocs or [fn.entry.insts[0]])[0].where(), 'the heap array of waiter records is not freed exactly when it was allocated', site='nsync_wait_n/bookkeeping'))
+        rep.violate(Violation('C11.R2', '%s:%d in nsync_wait_n' % (IR.rel(fn.file), fn.line), whyb, site='nsync_wait_n/bookkeeping'))
     # ---- R3
     check_waitn_sleep(mod, rep, 'C11.R3')
     # ---- R4
